@@ -26,22 +26,26 @@ VARIABLES reg,       \* Point.counter, Expression.counter, Function.counter, len
           npts,      \* user points available (initial points): 1..npts
           metrics, pcons, plmis,     \* declared on the problem
           parts,     \* per partition: [d, dec (number of decomposed points), rows (constraints it holds)]
+          ncomp,     \* composite functions built with + (registered, never leaf)
+          fcons,     \* function-level constraints declared (f.add_constraint)
           solves, hist
-vars == <<reg, funs, npts, metrics, pcons, plmis, parts, solves, hist>>
+vars == <<reg, funs, npts, metrics, pcons, plmis, parts, ncomp, fcons, solves, hist>>
 Init == /\ reg = ZeroReg /\ funs = <<>> /\ npts = 0 /\ metrics = 0 /\ pcons = 0 /\ plmis = 0 /\ parts = <<>> /\ solves = 0
+        /\ ncomp = 0 /\ fcons = 0
         /\ hist = <<>>
 Log(a) == hist' = Append(hist, a)
 Started == reg.pep = 1
 NewPEP == /\ reg' = [ZeroReg EXCEPT !.pep = 1]
           /\ funs' = <<>> /\ npts' = 0 /\ metrics' = 0 /\ pcons' = 0 /\ plmis' = 0 /\ parts' = <<>> /\ solves' = 0
+          /\ ncomp' = 0 /\ fcons' = 0
           /\ Log([a |-> "pep", f |-> 0, k |-> 0, c |-> ""])
 Declare(c) == /\ Started /\ Len(funs) < 2
               /\ funs' = Append(funs, [cls |-> c, n |-> 0, nstat |-> 0, xs |-> {}])
               /\ reg' = [reg EXCEPT !.fn = @ + 1, !.nfun = @ + 1]
-              /\ Log([a |-> "declare", f |-> 0, k |-> 0, c |-> c]) /\ UNCHANGED <<npts, metrics, pcons, plmis, parts, solves>>
+              /\ Log([a |-> "declare", f |-> 0, k |-> 0, c |-> c]) /\ UNCHANGED <<npts, metrics, pcons, plmis, parts, ncomp, fcons, solves>>
 InitPoint == /\ Started /\ npts < 2
              /\ npts' = npts + 1 /\ reg' = [reg EXCEPT !.pt = @ + 1]
-             /\ Log([a |-> "point", f |-> 0, k |-> 0, c |-> ""]) /\ UNCHANGED <<funs, metrics, pcons, plmis, parts, solves>>
+             /\ Log([a |-> "point", f |-> 0, k |-> 0, c |-> ""]) /\ UNCHANGED <<funs, metrics, pcons, plmis, parts, ncomp, fcons, solves>>
 \* f.oracle(x_k): a new sample (one gradient leaf, one value leaf) unless the function is differentiable and knows x_k;
 \* a non-differentiable function that knows x_k records a new subgradient with the known value
 Oracle(f, k) == /\ Started /\ f \in 1..Len(funs) /\ k \in 1..npts
@@ -49,31 +53,31 @@ Oracle(f, k) == /\ Started /\ f \in 1..Len(funs) /\ k \in 1..npts
                    IF known /\ Diff(F.cls) THEN UNCHANGED <<funs, reg>>
                    ELSE /\ funs' = [funs EXCEPT ![f].n = @ + 1, ![f].xs = @ \cup {k}]
                         /\ reg' = [reg EXCEPT !.pt = @ + 1, !.ex = @ + (IF known THEN 0 ELSE 1)]
-                /\ Log([a |-> "oracle", f |-> f, k |-> k, c |-> ""]) /\ UNCHANGED <<npts, metrics, pcons, plmis, parts, solves>>
+                /\ Log([a |-> "oracle", f |-> f, k |-> k, c |-> ""]) /\ UNCHANGED <<npts, metrics, pcons, plmis, parts, ncomp, fcons, solves>>
 Stationary(f) == /\ Started /\ f \in 1..Len(funs) /\ funs[f].nstat = 0
                  /\ funs' = [funs EXCEPT ![f].n = @ + 1, ![f].nstat = @ + 1]
                  /\ reg' = [reg EXCEPT !.pt = @ + 1, !.ex = @ + 1]
-                 /\ Log([a |-> "stationary", f |-> f, k |-> 0, c |-> ""]) /\ UNCHANGED <<npts, metrics, pcons, plmis, parts, solves>>
+                 /\ Log([a |-> "stationary", f |-> f, k |-> 0, c |-> ""]) /\ UNCHANGED <<npts, metrics, pcons, plmis, parts, ncomp, fcons, solves>>
 \* a comparison of two expressions creates one Constraint object; declaring it on the problem does not create anything
 Condition == /\ Started /\ npts >= 1 /\ pcons < 2
              /\ pcons' = pcons + 1 /\ reg' = [reg EXCEPT !.co = @ + 1]
-             /\ Log([a |-> "condition", f |-> 0, k |-> 0, c |-> ""]) /\ UNCHANGED <<funs, npts, metrics, plmis, parts, solves>>
+             /\ Log([a |-> "condition", f |-> 0, k |-> 0, c |-> ""]) /\ UNCHANGED <<funs, npts, metrics, plmis, parts, ncomp, fcons, solves>>
 Metric == /\ Started /\ npts >= 1 /\ metrics < 2
           /\ metrics' = metrics + 1 /\ UNCHANGED reg
-          /\ Log([a |-> "metric", f |-> 0, k |-> 0, c |-> ""]) /\ UNCHANGED <<funs, npts, pcons, plmis, parts, solves>>
+          /\ Log([a |-> "metric", f |-> 0, k |-> 0, c |-> ""]) /\ UNCHANGED <<funs, npts, pcons, plmis, parts, ncomp, fcons, solves>>
 Lmi == /\ Started /\ npts >= 1 /\ plmis < 1
        /\ plmis' = plmis + 1 /\ reg' = [reg EXCEPT !.psd = @ + 1, !.ex = @ + 1]         \* [[|x|^2 + 1, t], [t, 1]] with a fresh leaf t
-       /\ Log([a |-> "lmi", f |-> 0, k |-> 0, c |-> ""]) /\ UNCHANGED <<funs, npts, metrics, pcons, parts, solves>>
+       /\ Log([a |-> "lmi", f |-> 0, k |-> 0, c |-> ""]) /\ UNCHANGED <<funs, npts, metrics, pcons, parts, ncomp, fcons, solves>>
 Partition(d) == /\ Started /\ Len(parts) < 1
                 /\ parts' = Append(parts, [d |-> d, dec |-> 0, rows |-> 0])
                 /\ reg' = [reg EXCEPT !.bp = @ + 1]
-                /\ Log([a |-> "partition", f |-> 0, k |-> d, c |-> ""]) /\ UNCHANGED <<funs, npts, metrics, pcons, plmis, solves>>
+                /\ Log([a |-> "partition", f |-> 0, k |-> d, c |-> ""]) /\ UNCHANGED <<funs, npts, metrics, pcons, plmis, ncomp, fcons, solves>>
 \* get_block on a point not yet decomposed: d - 1 fresh leaf points
 Block(k) == /\ Started /\ Len(parts) = 1 /\ k \in 1..npts /\ parts[1].dec < k          \* points are decomposed in order 1, 2
             /\ parts[1].dec = k - 1
             /\ parts' = [parts EXCEPT ![1].dec = k]
             /\ reg' = [reg EXCEPT !.pt = @ + parts[1].d - 1]
-            /\ Log([a |-> "block", f |-> 0, k |-> k, c |-> ""]) /\ UNCHANGED <<funs, npts, metrics, pcons, plmis, solves>>
+            /\ Log([a |-> "block", f |-> 0, k |-> k, c |-> ""]) /\ UNCHANGED <<funs, npts, metrics, pcons, plmis, ncomp, fcons, solves>>
 \* solve: the objective leaf; class constraints re-created for every leaf function; a qg function without stationary
 \* sample gets one (a leaf point and a leaf expression) the first time; the partition APPENDS its orthogonality
 \* constraints at every solve (finding F4 - modelled as implemented); one constraint object per metric
@@ -89,17 +93,35 @@ Solve == /\ Started /\ metrics >= 1 /\ solves < 2
                /\ reg' = [reg EXCEPT !.ex = @ + 1 + Cardinality(auto), !.pt = @ + Cardinality(auto),
                                      !.co = @ + Rows(1) + prow + metrics]
          /\ solves' = solves + 1
-         /\ Log([a |-> "solve", f |-> 0, k |-> 0, c |-> ""]) /\ UNCHANGED <<npts, metrics, pcons, plmis>>
+         /\ Log([a |-> "solve", f |-> 0, k |-> 0, c |-> ""]) /\ UNCHANGED <<npts, metrics, pcons, plmis, ncomp, fcons>>
+\* F = f + g: a registered function that is not a leaf (no Function.counter of its own)
+Compose(f, g) == /\ Started /\ f \in 1..Len(funs) /\ g \in 1..Len(funs) /\ f < g /\ ncomp < 1
+                 /\ ncomp' = ncomp + 1 /\ reg' = [reg EXCEPT !.nfun = @ + 1]
+                 /\ Log([a |-> "compose", f |-> f, k |-> g, c |-> ""])
+                 /\ UNCHANGED <<funs, npts, metrics, pcons, plmis, parts, fcons, solves>>
+\* f.add_constraint(|x_1|^2 <= 2): the comparison creates one Constraint object
+FunCondition(f) == /\ Started /\ f \in 1..Len(funs) /\ npts >= 1 /\ fcons < 1
+                   /\ fcons' = fcons + 1 /\ reg' = [reg EXCEPT !.co = @ + 1]
+                   /\ Log([a |-> "fcondition", f |-> f, k |-> 0, c |-> ""])
+                   /\ UNCHANGED <<funs, npts, metrics, pcons, plmis, parts, ncomp, solves>>
+\* proximal_step(x_k, f, 1): a fresh subgradient leaf and a fresh value leaf, recorded as one more sample of f at the NEW
+\* (non-leaf) point x_k - g
+Prox(f, k) == /\ Started /\ f \in 1..Len(funs) /\ k \in 1..npts /\ funs[f].n < 3
+              /\ funs' = [funs EXCEPT ![f].n = @ + 1]
+              /\ reg' = [reg EXCEPT !.pt = @ + 1, !.ex = @ + 1]
+              /\ Log([a |-> "prox", f |-> f, k |-> k, c |-> ""])
+              /\ UNCHANGED <<npts, metrics, pcons, plmis, parts, ncomp, fcons, solves>>
 Next == /\ Len(hist) < MaxActions
         /\ \/ NewPEP \/ (\E c \in Classes : Declare(c)) \/ InitPoint \/ (\E f \in 1..2, k \in 1..2 : Oracle(f, k))
            \/ (\E f \in 1..2 : Stationary(f)) \/ Condition \/ Metric \/ Lmi \/ (\E d \in {1, 2, 3} : Partition(d))
            \/ (\E k \in 1..2 : Block(k)) \/ Solve
+           \/ (\E f, g \in 1..2 : Compose(f, g)) \/ (\E f \in 1..2 : FunCondition(f)) \/ (\E f \in 1..2, k \in 1..2 : Prox(f, k))
 Spec == Init /\ [][Next]_vars
 \* ---- cross-cutting invariants of the design
 \* a new problem starts from a clean slate whatever happened before
 CleanSlate == (hist # <<>> /\ hist[Len(hist)].a = "pep") => reg = [ZeroReg EXCEPT !.pep = 1]
 \* the registries count what exists: one function counter per declared function, at least one leaf point per sample
-Counting == Started => /\ reg.fn = Len(funs) /\ reg.nfun = Len(funs)
+Counting == Started => /\ reg.fn = Len(funs) /\ reg.nfun = Len(funs) + ncomp
                        /\ reg.bp = Len(parts)
                        /\ LET RECURSIVE S(_) S(f) == IF f > Len(funs) THEN 0 ELSE funs[f].n + S(f + 1) IN reg.pt >= npts + S(1)
 \* the number of leaf expressions grows by exactly one objective per solve on top of what the user's calls created
